@@ -190,6 +190,22 @@ Theorem c12_rules_of_type {V} dflt ty (rs : list (str * V)) pat v :
 Proof. exact (in_rules_of dflt ty rs pat v). Qed.
 Print Assumptions c12_rules_of_type.
 
+(** ** consumers that drop an empty set (domain_set, base_domain / qname): [if m.Len() > 0] *)
+
+(** One accepted rule of any single type — full, keyword, a regexp that compiles,
+    or a domain rule other than the root domain — makes Len() positive whatever
+    else the set contains, so the provider keeps the loaded set and c12_mix_iff
+    applies to what the consumer sees. (A set whose only rules are root-domain
+    rules "domain:" / "." has Len() = 0 in the code and is dropped; such patterns
+    have an empty label and are outside the property.) *)
+Theorem c12_nonempty_set_is_kept {V} (re_valid : str -> bool) dflt (rs : list (str * V)) s v ty pat :
+  In (s, v) rs -> parse_rule dflt s = Ok (ty, pat) ->
+  (ty = TRegexp -> re_valid pat = true) ->
+  (ty = TDomain -> labels pat <> []) ->
+  0 < mix_len (fst (mix_add_all re_valid dflt rs empty_mix)).
+Proof. exact (mix_len_pos re_valid dflt rs s v ty pat). Qed.
+Print Assumptions c12_nonempty_set_is_kept.
+
 (** ** text files: one rule per line, '#' comments, surrounding white space, blank lines *)
 
 Theorem c12_loader_lines {V} (re_valid : str -> bool) (parse : @parse_fn V) dflt text (m : mix) :
